@@ -375,6 +375,17 @@ class T:
     def if_(self, s, rest, env, k):
         nn = self.is_names_none(s.test)
         body, orelse = s.body, s.orelse
+        if getattr(self, "decision_mode", False) and nn is None and not self.fs_bound and self.loopvar is None:
+            # decision mode: the test of the first top-level `if` whose branches bind the returned array
+            av0 = self.assigned(body) | self.assigned(orelse)
+            if len(av0) == 1:
+                v0 = next(iter(av0))
+                n0 = self.nbyteswap
+                ty0 = env.get(v0) or self._type_of_assigned(s, v0, env)
+                self.nbyteswap = n0
+                if ty0 == "outcome":
+                    self.decision_found = True
+                    return self.bexpr(s.test, env)
         # early return:  if c: return X   <rest>
         if body and isinstance(body[-1], ast.Return) and not orelse and nn is None:
             return "if %s then (%s) else (\n  %s)" % (self.bexpr(s.test, env), self.block(body, env, k), self.block(rest, env, k))
@@ -439,6 +450,30 @@ class T:
         self.loopvar = None
         e = "scan_g (fun o_ => %s) %s %s %s fs_" % (test, _b(b[0].value.value), _b(brk), v)
         return "let %s := %s in\n  %s" % (v, e, self.block(rest, env, k))
+
+    def run_decision(self):
+        """the swap decision alone: the lets of the body up to the `if` that binds the returned array, then its test"""
+        fn = self.fn
+        names, dflt = _sig(fn, self.where)
+        body = _strip_doc(fn.body)
+        self.params = set(names[1:])
+        self.arrparam = "array"
+        self.decision_mode, self.decision_found = True, False
+        if self.kind == "conv":
+            env = {"inplace": "bool", "keep_dtype": "bool"}
+            e = self.block(body, env, lambda env: self.err("no swap decision found"))
+            sig = "(np_le : bool) (array : arr) (inplace keep_dtype : bool)"
+        else:
+            ovars = sorted(set(t.id for n in ast.walk(fn) if isinstance(n, ast.Assign) and len(n.targets) == 1
+                               for t in n.targets if isinstance(t, ast.Name) and isinstance(n.value, ast.Call)
+                               and isinstance(n.value.func, ast.Attribute) and n.value.func.attr == "byteswap"))
+            if len(ovars) != 1:
+                self.err("expected exactly one variable bound to array.byteswap(...), found %s" % ovars)
+            e = self.block(body, {ovars[0]: "outcome"}, lambda env: self.err("no swap decision found"))
+            sig = "(np_le : bool) (array : arr)"
+        if not self.decision_found:
+            self.err("no `if` binding the returned array found: cannot extract the swap decision")
+        return "Definition %s_%s_swaps_g %s : bool :=\n  %s.\n" % (self.mod, fn.name, sig, e)
 
     # ---------------------------------------------------------------- whole functions
     def run(self):
@@ -616,6 +651,9 @@ def extract(nu_src, ru_src):
         defs.append(("nu_%s_g" % c, d))
         dfl[c] = df
         done.append(c)
+    for c in NU_CONVS[1:]:
+        d = T("nu", _func(nu, c, "numpy_util"), "conv", NU_PREDS, ["byteswap"], sigs).run_decision()
+        defs.append(("nu_%s_swaps_g" % c, d))
     defs.append(("nu_defaults", "(* keyword defaults (inplace, keep_dtype) of byteswap, to_native, to_big_endian, to_little_endian *)\n"
                  "Definition nu_defaults : list (bool * bool) := [%s].\n" % "; ".join("(%s, %s)" % (_b(dfl[c][0]), _b(dfl[c][1])) for c in NU_CONVS)))
     i, f = _descr_to_native(_func(nu, "descr_to_native", "numpy_util"))
@@ -626,6 +664,8 @@ def extract(nu_src, ru_src):
         defs.append(("ru_%s_g" % p, d))
     d, _ = T("ru", _func(ru, "to_native_inplace", "recfile.Util"), "inplace", RU_PREDS, [], {}).run()
     defs.append(("ru_to_native_inplace_g", d))
+    d = T("ru", _func(ru, "to_native_inplace", "recfile.Util"), "inplace", RU_PREDS, [], {}).run_decision()
+    defs.append(("ru_to_native_inplace_swaps_g", d))
     d, _ = T("ru", _func(ru, "to_native", "recfile.Util"), "conv1", RU_PREDS, [], {}).run()
     defs.append(("ru_to_native_g", d))
     i, f, t3, t2, lt = _remove_dtype_byteorder(_func(ru, "remove_dtype_byteorder", "recfile.Util"))
